@@ -307,6 +307,106 @@ Definition mer_chart (o : mopts) (s : rt) : option (list text) :=
 Definition mer_text (x : list mnode * list medge) : list (option text) * list (option text) :=
   (map mer_node_text (fst x), map mer_edge_text (snd x)).
 
+(* ---- the DOT document as text, with attribute dictionaries and mappers ---- *)
+(* A dict of str -> str in insertion order; [d[k] = v] *)
+Definition attrs := list (text * text).
+Fixpoint dset (k v : text) (d : attrs) : attrs :=
+  match d with
+  | [] => [(k, v)]
+  | (k', v') :: r => if text_eqb k k' then (k, v) :: r else (k', v') :: dset k v r
+  end.
+
+(* a mapper callback that sets one attribute in place: [data[k] = v] *)
+Definition amapper := option (text * text).
+Definition run_mapper (m : amapper) (d : attrs) : attrs :=
+  match m with Some (k, v) => dset k v d | None => d end.
+
+Fixpoint join_sp (l : list text) : text :=
+  match l with
+  | [] => []
+  | [x] => x
+  | x :: r => x ++ [32%Z] ++ join_sp r
+  end.
+
+(* _attr_str: "" for an empty dict, else ' [k="v" k2="v2"]' *)
+Definition attr_str (d : attrs) : text :=
+  match d with
+  | [] => []
+  | _ => [32; 91]%Z ++ join_sp (map (fun kv => fst kv ++ [61; 34]%Z ++ snd kv ++ [34%Z]) d) ++ [93%Z]
+  end.
+
+Definition int_text (i : Decimal.int) : text :=
+  match i with Decimal.Pos u => uint_text u | Decimal.Neg u => 45%Z :: uint_text u end.
+
+(* str(key); node ids are memory addresses: the harness rewrites them to @<allocation index> *)
+Definition key_text (k : gkey) : text :=
+  match k with
+  | KD (DInt z) => int_text (Z.to_int z)
+  | KD (DStr t) => t
+  | KN n => 64%Z :: dec n
+  end.
+
+Record dopts := DO {
+  do_add_self : bool;
+  do_unique : bool;
+  do_graph : attrs;
+  do_node : attrs;
+  do_edge : attrs;
+  do_nmap : amapper;
+  do_emap : amapper
+}.
+
+Definition D_indent : text := [32; 32]%Z.
+Definition D_generator : text :=
+  [35; 32; 71; 101; 110; 101; 114; 97; 116; 111; 114; 58; 32; 104; 116; 116; 112; 115; 58; 47; 47; 103; 105; 116; 104; 117; 98;
+   46; 99; 111; 109; 47; 109; 97; 114; 49; 48; 47; 110; 117; 116; 114; 101; 101; 47]%Z.
+Definition D_digraph : text := [100; 105; 103; 114; 97; 112; 104; 32; 34]%Z.           (* digraph + quote *)
+Definition D_open : text := [34; 32; 123]%Z.
+Definition D_defaults : text := D_indent ++ [35; 32; 68; 101; 102; 97; 117; 108; 116; 32; 68; 101; 102; 105; 110; 105; 116; 105; 111; 110; 115]%Z.
+Definition D_graph : text := D_indent ++ [103; 114; 97; 112; 104; 32]%Z.
+Definition D_node : text := D_indent ++ [110; 111; 100; 101; 32]%Z.
+Definition D_edge : text := D_indent ++ [101; 100; 103; 101; 32]%Z.
+Definition D_nodes : text := D_indent ++ [35; 32; 78; 111; 100; 101; 32; 68; 101; 102; 105; 110; 105; 116; 105; 111; 110; 115]%Z.
+Definition D_edges : text := D_indent ++ [35; 32; 69; 100; 103; 101; 32; 68; 101; 102; 105; 110; 105; 116; 105; 111; 110; 115]%Z.
+Definition D_arrow : text := [32; 45; 62; 32]%Z.
+Definition A_label : text := [108; 97; 98; 101; 108]%Z.
+Definition A_shape : text := [115; 104; 97; 112; 101]%Z.
+Definition A_box : text := [98; 111; 120]%Z.
+
+Definition nonempty {X} (l : list X) : bool := match l with [] => false | _ => true end.
+
+Definition dot_head (o : dopts) (tname : text) : list text :=
+  [D_generator; D_digraph ++ tname ++ D_open]
+  ++ (if nonempty (do_graph o) || nonempty (do_node o) || nonempty (do_edge o)
+      then [[]; D_defaults]
+           ++ (if nonempty (do_graph o) then [D_graph ++ attr_str (do_graph o)] else [])
+           ++ (if nonempty (do_node o) then [D_node ++ attr_str (do_node o)] else [])
+           ++ (if nonempty (do_edge o) then [D_edge ++ attr_str (do_edge o)] else [])
+      else [])
+  ++ [[]; D_nodes].
+
+(* attr_def of a definition before the mapper runs: {} | {label, shape=box} | {label} *)
+Definition ddef_attrs (d : ddef) : attrs :=
+  match d with (_, lbl, box) =>
+    (match lbl with Some l => [(A_label, l)] | None => [] end) ++ (if box then [(A_shape, A_box)] else [])
+  end.
+Definition ddef_line (m : amapper) (d : ddef) : text :=
+  D_indent ++ key_text (fst (fst d)) ++ attr_str (run_mapper m (ddef_attrs d)).
+
+(* edges: {} for plain nodes, {label: kind} for typed ones (TypedNode.to_dot), then the edge_mapper *)
+Definition dedge_line (m : amapper) (e : dedge) : text :=
+  match e with (a, b, l) =>
+    D_indent ++ key_text a ++ D_arrow ++ key_text b
+    ++ attr_str (run_mapper m (match l with Some k => [(A_label, k)] | None => [] end))
+  end.
+
+Definition dot_doc (o : dopts) (isroot : bool) (tname : text) (s : rt) : list text :=
+  dot_head o tname
+  ++ map (ddef_line (do_nmap o)) (dot_nodes true (do_unique o) (do_add_self o) isroot tname s)
+  ++ [[]; D_edges]
+  ++ map (dedge_line (do_emap o)) (dot_edges (do_unique o) (do_add_self o) s)
+  ++ [[125%Z]].
+
 (* ------------------------------------------------------------------ RDF *)
 Inductive rnode := RLit (d : did) | RSys.   (* Literal(data_id) | URIRef(system_root) *)
 Inductive triple :=
